@@ -267,6 +267,23 @@ theorem blockMethod_writes (lenDst lenSrc : Nat) (accs : List Access)
     · cases h
     · injection h with h; subst h; exact blockAsm_writes.1
 
+/-- the premise of C17 about the assembly, in one record: every write of sealAsm / openAsm goes
+    through its `dst` argument or through the caller-provided scratch `temp` (a stack array of the
+    calling goroutine); every write of cryptoBlockAsm* goes through `dst`; expandKeyAsm writes only
+    the two round-key arrays it is handed -/
+structure AsmWriteSets : Prop where
+  sealAsm : ∀ tagSize nl pl al, WritesOnlyTo (sealModel tagSize nl pl al) [aDst, aTmp]
+  openAsm : ∀ tagSize nl cl al tagOk, WritesOnlyTo (openModel tagSize nl cl al tagOk) [aDst, aTmp]
+  openAsmMismatch : ∀ tagSize nl cl al, WritesOnlyTo (openModel tagSize nl cl al false) [aTmp]
+  block : WritesOnlyTo blockModel [.arg 16] ∧ WritesOnlyTo blockX2Model [.arg 16] ∧
+    WritesOnlyTo blockX4Model [.arg 16] ∧ WritesOnlyTo blockX8Model [.arg 16] ∧
+    WritesOnlyTo blockX16Model [.arg 16]
+  expandKey : WritesOnlyTo expandKeyModel [.arg 16, .arg 24]
+
+/-- … discharged for C11's access models -/
+theorem asmWriteSets : AsmWriteSets :=
+  ⟨sealAsm_writes, openAsm_writes, openAsm_writes_mismatch, blockAsm_writes, expandKeyAsm_writes⟩
+
 /-! ### the regression: the operand order of before repair 25081bb -/
 
 /-- `constantTimeCompare(ETag, Cipher, …)`: the XOR lands in the macro's second operand.  With the
